@@ -26,13 +26,40 @@ ASSUMPTIONS = [
     "4076_201 bodies with harmonic order M > N are skipped (layout undefined by the standard)",
 ]
 GATES = ["cuts_checked", "bumped_checked", "garbage_short_checked", "cut:inside-field", "cut:at-field-end",
-         "cut:inside-counter-or-mask"]
+         "cut:inside-counter-or-mask", "framed_rejected"]
 
 
 def parse(payload):
     from pyrtcm import RTCMMessage
 
     return RTCMMessage(payload=payload)
+
+
+def must_reject_framed(ctx, identity, payload, why, params, full_len):
+    """The same rule through the static frame parser: correct framing of the short payload, and framing whose
+    length field still announces the ORIGINAL size (trailer valid for the bytes present)."""
+    from pyrtcm import RTCMReader
+
+    from vf import refcrc
+
+    frames = [("framed", refcrc.frame(payload))]
+    if full_len is not None and full_len <= 1023 and full_len != len(payload):
+        body = b"\xd3" + bytes([full_len >> 8, full_len & 0xFF]) + payload
+        frames.append(("length-field-announces-more", body + refcrc.crc_ref2(body).to_bytes(3, "big")))
+    for label, fr in frames:
+        for v in (1, 0):
+            try:
+                msg = RTCMReader.parse(fr, validate=v)
+            except Exception:
+                ctx.hit("framed_rejected")
+                continue
+            attrs = [k for k in msg.__dict__ if not k.startswith("_")]
+            ctx.violation("short-payload-accepted",
+                          f"{identity}: RTCMReader.parse({label}, validate={v}) accepted a payload of {len(payload)} bytes "
+                          f"although {why}; returned {len(attrs)} attributes (last: {attrs[-3:]})",
+                          dict(params, framed=label, validate=v))
+            return False
+    return True
 
 
 def must_reject(ctx, identity, payload, why, params):
@@ -96,6 +123,8 @@ def sweep(ctx, identity, vs, cs, ms, seedtag):
         except refmodel.DefinitionError:
             return
         ok = must_reject(ctx, identity, p, why, dict(base, cutlen=ln))
+        if ok and (ln % 3 == 0 or ln >= len(full) - 4):
+            ok = must_reject_framed(ctx, identity, p, why, dict(base, cutlen=ln), len(full))
         ctx.hit("cuts_checked")
         if not ok:
             return
